@@ -117,9 +117,10 @@ def scenario_for(seed, index, tier, _depth=0, _proto=None):
     seg = rng.random() < 0.5
     play = [['ka', 77], ['expect', 1], ['disconnect', '{"text":"fin"}']]
     # a server may send its encryption request without waiting for the
-    # answers to earlier plugin requests (before a set-compression it must
-    # wait: an answer written before the client has seen that packet would
-    # be in the old framing - a race inherent in the protocol)
+    # answers to earlier plugin requests; before a set-compression it may do
+    # so only when both reach the client in one piece (otherwise an answer
+    # written before the client has seen that packet would be in the old
+    # framing - a race inherent in the protocol)
     pipeline = bool(plugins) and rng.random() < 0.3
     logins = [{'steps': steps, 'disc': disc, 'late': late,
                'pipeline': pipeline}]
@@ -153,8 +154,14 @@ def scenario_for(seed, index, tier, _depth=0, _proto=None):
                                       ({'close_mode': 'rst'}
                                        if (lg.get('late') or {}).get('rst')
                                        else {}),
-                                      pipeline_plugins=bool(
-                                          lg.get('pipeline'))))
+                                      # unsegmented streams deliver a
+                                      # request and the set-compression that
+                                      # follows it in one piece, so the
+                                      # client handles both in one pass and
+                                      # nothing races
+                                      pipeline_plugins=(
+                                          ('encrypt' if seg else 'all')
+                                          if lg.get('pipeline') else False)))
                              for lg in logins]},
         'net': {'latency_us': rng.choice([50, 500]), 'segment': seg,
                 'short_read': seg, 'max_seg': rng.choice([1, 16, 300])},
